@@ -6,6 +6,7 @@ import NbioVerif.Lemmas.C09Account
 import NbioVerif.Lemmas.C09ReadFrom
 import NbioVerif.Lemmas.C09FlushClose
 import NbioVerif.Lemmas.C09Trailer
+import NbioVerif.Lemmas.C09Decode
 /-! C09 HTTP response framing — property theorems over the model `Resp` (nbhttp/response.go). -/
 namespace Resp
 
@@ -967,6 +968,40 @@ theorem c09_flush_close_delimited (g : Cfg) (hg : g.failAt = 0) (hreal : g.head 
     rw [hE2, w2, runB_closeDelim_mono g ops2 _ hFd]
     simp
 
+/-- **C09, ONE decoder, nothing left over (chunked responses).** `decodeChunked` (Lemmas/C09Decode.lean) is a single
+reference decoder: status line, header fields, chunked body (RFC 7230 §4.1), trailer fields, and it answers `none` unless
+the input is consumed exactly.  For every chunked response of a stage-2 program (real head encoder, body-phase header
+operations on declared trailers only, printable headers and trailers, payloads within the range of the length formatter)
+on a connection that accepts the writes, it decodes the WHOLE wire to: the handler's status line; the automatic fields of
+the encoding state followed by exactly the handler's non-trailer fields; the concatenation of the accepted writes; the
+trailer fields of `c09_stage2_trailer_keys` — and nothing is left over.  (The pieces were `c09_stage2_head`,
+`c09_stage1_unframe`, `c09_stage2_trailers`; identity framing: `c09_identity_auto_length`, `c09_flush_close_delimited`,
+`c09_readfrom_*`, where the body is delimited by Content-Length or by the close.) -/
+theorem c09_decode_chunked (g : Cfg) (hg : g.failAt = 0) (hreal : g.head = headBytes g)
+    (hdr : Header) (sc : Nat) (st : Bytes) (ops : List BOp) (hok : ∀ op ∈ ops, op.ok)
+    (htr : ∀ op ∈ ops, op.trailerOnly (body0 g hdr sc st).header)
+    (hs : SaneHeaders g (body0 g hdr sc st)) (hch : (body0 g hdr sc st).chunked = true)
+    (hsz : ∀ d ∈ accepted g hdr sc st ops, d.length ≤ maxChunk)
+    (hk : ∀ p ∈ trailerPairs (eoncodeHead g (endState g hdr sc st ops)), nameOk p.1)
+    (hv : ∀ p ∈ trailerPairs (eoncodeHead g (endState g hdr sc st ops)), noCR p.2) :
+    ∃ rE : R, rE.chunked = true ∧
+      decodeChunked (wireOf g hdr sc st ops) =
+        some (statusBody g (body0 g hdr sc st),
+              autoPairs g rE ++ handlerPairs (hget (body0 g hdr sc st).header kTrailer) (body0 g hdr sc st).header,
+              (accepted g hdr sc st ops).flatten,
+              trailerPairs (eoncodeHead g (endState g hdr sc st ops))) := by
+  obtain ⟨rE, F, hp, _, hc, hF⟩ := c09_stage2_head g hg hreal hdr sc st ops hok htr hs
+  refine ⟨rE, by rw [hc]; exact hch, ?_⟩
+  rw [← nonEmpty_flatten]
+  apply decodeChunked_spec _ _ _ _ (nonEmpty (accepted g hdr sc st ops))
+  · rw [hp, hF, hch, framed_chunked]
+    simp only [↓reduceIte]
+    rw [lastChunk_normal]
+  · exact fun d hd => (nonEmpty_ne _ d hd).1
+  · exact fun d hd => hsz d (nonEmpty_ne _ d hd).2
+  · exact hk
+  · exact hv
+
 /-! ### non-vacuity -/
 
 section nonvacuity
@@ -982,6 +1017,13 @@ example :
       str ("HTTP/1.1 200 OK\r\nContent-Type: text/plain; charset=utf-8\r\nDate: D\r\nTrailer: X-Sum\r\n" ++
            "Transfer-Encoding: chunked\r\n\r\n6\r\nhello \r\n5\r\nworld\r\n0\r\nX-Sum: 11\r\n\r\n") := by
   refine ⟨by decide, by decide⟩
+
+/-- the ONE decoder on that program's whole wire: status line, fields, body, trailer fields, nothing left over -/
+example :
+    let hdr : Header := [(kDate, [str "D"]), (kTrailer, [str "X-Sum"])]
+    let ops : List BOp := [.write (str "hello "), .flush, .write (str "world"), .setH (str "X-Sum") (str "11")]
+    (decodeChunked (wireOf cfg11 hdr 0 [] ops)).map (fun p => (p.1, p.2.2.1, p.2.2.2)) =
+      some (str "HTTP/1.1 200 OK", str "hello world", [(str "X-Sum", str "11")]) := by decide
 
 /-- the reference decoder on that wire's framing part -/
 example : unchunk 3 (str "6\r\nhello \r\n5\r\nworld\r\n0\r\nX-Sum: 11\r\n\r\n") =
